@@ -44,6 +44,17 @@ type c19FilesCase struct {
 	Part  string            `json:"part"`
 	Files map[string]string `json:"files"`
 	Ctx   PkgCtx            `json:"ctx"`
+	// DeathKey names the situation of a case that is expected to kill the process if the corresponding finding is not
+	// repaired (the driver uses it as the violation key when the worker dies): "" for all ordinary cases.
+	DeathKey string `json:"deathKey,omitempty"`
+}
+
+// templates that build a map containing itself and print it: fmt recurses until the stack is exhausted
+var cyclicTemplates = []string{
+	"{{ set .config \"self\" .config }}",
+	"{{ $d := dict \"k\" 1 }}{{ $_ := set $d \"self\" $d }}{{ $d }}",
+	"{{ merge .config (dict \"inner\" .config) }}",
+	"{{ $d := dict \"k\" 1 }}{{ $_ := set $d \"self\" $d }}{{ deepCopy $d }}",
 }
 
 var hostileStrings = []string{"", " ", "=>", "a=>", "=>b", "a => b\nc", "\n", "{{", "}}", "{{ .config.x }}", "{{ include \"x\" . }}", "{{ template \"nope\" }}", "null", "~", "[]", "{}", "- a", "true", "0", "-1", "1e9", "\"", "'", "a: b: c", "\t", "---", "cond.nosuch", "1 +", "has(", "config.flag ? 1 : 2", "config.label", "config.flag", "config", "config.missing", "environment.kubernetes.version", "environment.openShift", "package.metadata.name", "config.label + 1", "[config.label][0]", "{\"a\": config.flag}[\"a\"]", "package-operator.run/phase", "../../etc/passwd", strings.Repeat("a", 300), "\u0000", "\u2028"}
@@ -181,6 +192,24 @@ func TestC19Pipeline(t *testing.T) {
 		d := GenPkg(rt, 4)
 		ctx := GenPkgCtx(rt)
 		c := &c19FilesCase{Part: "pipeline", Files: mutateFiles(rt, d.Build(ctx)), Ctx: ctx}
+		if rapid.IntRange(0, 19).Draw(rt, "cyclic") == 0 {
+			// a template that stores a map inside itself and prints it
+			for name := range c.Files {
+				if strings.HasSuffix(name, ".gotmpl") && !strings.HasPrefix(filepath.Base(name), "_") {
+					c.Files[name] += "\n# " + rapid.SampledFrom(cyclicTemplates).Draw(rt, "cyc") + "\n"
+					c.DeathKey = "cyclic-template-value"
+					break
+				}
+			}
+		}
+		if c.DeathKey != "" {
+			// Go cannot recover from stack exhaustion: if this situation is a listed finding, the case is excluded by
+			// construction (counted); otherwise it is run, and the driver reports the worker's death under this key
+			if v := Violf("C19", "unbounded-recursion:"+c.DeathKey, "a template builds a map containing itself and prints it: fmt recurses until the stack is exhausted and the process dies"); IsKnown(v) {
+				st.Known(v)
+				return
+			}
+		}
 		ok, err := runC19Pipeline(c)
 		st.Case(c, ok)
 		st.Report(rt, c, err)
